@@ -478,7 +478,7 @@ class _Self:
         self.key, self.ver, self.rev, self.slot = key, ver, None, slot
 
 
-def _pkg_deps(rnd, names, profile, density, own=None, ver=None, slot=None):
+def _pkg_deps(rnd, names, profile, density, own=None, ver=None, slot=None, singles=()):
     n = _w(rnd, [(0, 3), (1, 4), (2, 3), (3, 1)]) if density else _w(rnd, [(0, 6), (1, 3), (2, 1)])
     cyclic = profile == "mono-cyclic"
     if cyclic:
@@ -506,7 +506,16 @@ def _pkg_deps(rnd, names, profile, density, own=None, ver=None, slot=None):
             # a back edge (own or lower-ranked name) as an extra alternative of an any-of group that keeps >=1
             # forward alternative: dependency cycles - build-time ones included - that a resolver can get out of
             lower = names[: names.index(own) + 1]
-            back = _dep_atom(rnd, [own] if cyclic and rnd.randrange(2) else lower, profile)
+            single = [k for k in lower if k in singles]
+            if single and rnd.randrange(8):
+                # prefer names with one version: every requester of such a name gets the same package whatever the
+                # cycle context, which is what makes the world judgeable by C16's model
+                own_single = [own] if own in single else single
+                back = _dep_atom(rnd, own_single if cyclic and rnd.randrange(2) else single, profile)
+            elif rnd.randrange(4) == 0:
+                back = _dep_atom(rnd, [own] if cyclic and rnd.randrange(2) else lower, profile)
+            else:
+                back = cl[0]  # no back alternative this time
             if back not in cl:
                 cl.insert(0 if cyclic and rnd.randrange(3) else rnd.randrange(len(cl) + 1), back)
         if ver is not None and len(cl) == 1 and ratom(cl[0]).blocks and ratom(cl[0]).match(_Self(own, ver, slot)):
@@ -534,23 +543,26 @@ def gen_world(seed: int, profile="full", max_pkgs=12):
     names = list(NAMES[:nnames])
     density = rnd.randrange(4) != 0
     src, src2, vdb = [], [], []
+    singles = []  # names with a single version in the source repositories
     total = 0
     two_src = rnd.randrange(6) == 0
     for key in names:
         multislot = rnd.randrange(4) < {"mono-cyclic": 2, "mono-slots": 3}.get(profile, 1)
         nv = _w(rnd, {"mono-cyclic": [(1, 6), (2, 3), (3, 1)], "mono-slots": [(1, 1), (2, 4), (3, 4)]}.get(profile, [(1, 3), (2, 4), (3, 2)]))
         vers = sorted(rnd.sample(VERS, nv))
+        if nv == 1:
+            singles.append(key)
         slot_of = {v: (rnd.choice(("0", "1")) if multislot else "0") for v in VERS}
         for v in vers:
             if total >= max_pkgs:
                 break
-            d = {"cpv": f"{key}-{v}", "slot": slot_of[v], "deps": _pkg_deps(rnd, names, profile, density, key, v, slot_of[v])}
+            d = {"cpv": f"{key}-{v}", "slot": slot_of[v], "deps": _pkg_deps(rnd, names, profile, density, key, v, slot_of[v], singles)}
             where = src2 if (two_src and rnd.randrange(3) == 0) else src
             where.append(d)
             total += 1
             if two_src and rnd.randrange(4) == 0 and total < max_pkgs:
                 other = src if where is src2 else src2  # same cpv offered by both source repositories
-                other.append({"cpv": d["cpv"], "slot": d["slot"], "deps": _pkg_deps(rnd, names, profile, density, key, v, slot_of[v])})
+                other.append({"cpv": d["cpv"], "slot": d["slot"], "deps": _pkg_deps(rnd, names, profile, density, key, v, slot_of[v], singles)})
                 total += 1
         inst_mode = _w(rnd, [("none", 7), ("one", 3), ("perslot", 1)] if profile == "mono-slots" else [("none", 4), ("one", 5), ("perslot", 2)])
         if inst_mode != "none" and total < max_pkgs:
@@ -567,7 +579,7 @@ def gen_world(seed: int, profile="full", max_pkgs=12):
                 if same is not None and rnd.randrange(3) > 0:
                     deps = {c: [list(cl) for cl in cls] for c, cls in same["deps"].items()}
                 else:
-                    deps = _pkg_deps(rnd, names, profile, density, key, v, sl)
+                    deps = _pkg_deps(rnd, names, profile, density, key, v, sl, singles)
                 vdb.append({"cpv": f"{key}-{v}", "slot": sl, "deps": deps})
                 total += 1
     repos = {"src": src, "vdb": vdb}
